@@ -33,6 +33,33 @@ def check(ctx, rep):
     comparator_language(ctx, rep, prog, g)
 
 
+def real_part(g):
+    """simple() without its catch-all: the garbage alternative is removed wherever it stands — directly in the `alt`, or as
+    the last alternative of the `alt` that each branch of a first-character dispatch runs. Returns a tree (None when
+    simple() is missing)."""
+    from ..wmodels import P as Node
+    simple = g.get("range::simple")
+    if simple is None:
+        return None
+
+    def is_garbage(a):
+        a0 = gram.strip(a)
+        return a0.kind == "ref" and a0.extra == "range::garbage"
+
+    def strip_garbage(p):
+        if not isinstance(p, gram.P):
+            return p
+        if p.kind == "alt":
+            keep = [strip_garbage(a) for a in p.args if not is_garbage(a)]
+            if not keep:
+                return Node("not", [Node("lit", extra="")])      # nothing left: fails
+            return Node("alt", keep, p.extra)
+        if p.kind in ("paths", "seq", "context", "map", "try_map", "cut_err", "terminated", "preceded", "delimited"):
+            return Node(p.kind, [strip_garbage(a) for a in p.args], p.extra)
+        return p
+    return strip_garbage(simple)
+
+
 def comparator_language(ctx, rep, prog, g):
     """Token level: every comparator text of the npm range grammar (with the loose spellings the property lists) is
     recognised by one of the five real alternatives of simple() with exactly its own extent — it is neither dropped as
@@ -45,10 +72,10 @@ def comparator_language(ctx, rep, prog, g):
                        "delimiter is consumed exactly by a non-garbage alternative of simple()")
     try:
         L, P, classes, reps, _, _ = build(prog, g, root="range::range_set", extra_chars="vV.-+xX*<>=~^|")
-        simple = gram.strip(g["range::simple"])
-        real = [a for a in simple.args if not (gram.strip(a).kind == "ref" and gram.strip(a).extra == "range::garbage")]
-        from ..wmodels import P as Node
-        M5, F5 = P.den(Node("alt", real))
+        real = real_part(g)
+        if real is None:
+            raise KeyError("range::simple")
+        M5, F5 = P.den(real)
     except (Inconclusive, KeyError) as e:
         rep.inconc("%s: %s" % (rule, e))
         return
@@ -348,7 +375,7 @@ def delimiters_semantic(rep, prog, g, rule, real):
     from ..wmodels import P as Node
     try:
         L, Pg, classes, reps, _, _ = build(prog, g, root="range::range_set", extra_chars="vV.-+xX*<>=~^|")
-        M5, F5 = Pg.den(Node("alt", real))
+        M5, F5 = Pg.den(real if isinstance(real, gram.P) else Node("alt", real))
         Mg, Fg = Pg.den(g["range::garbage"])
     except (Inconclusive, KeyError) as e:
         rep.inconc("%s: %s" % (rule, e))
@@ -384,8 +411,18 @@ def delimiters(rep, prog, g):
     rep.rule(rule, 9, "simple(): every comparator alternative ends at a delimiter {blank, ||, end}; garbage stops at "
                       "exactly that set and yields None; hyphen before partial; || and blank separators")
     simple = g.get("range::simple")
-    if simple is None or gram.strip(simple).kind != "alt":
-        rep.inconc("range::simple is not an alt")
+    if simple is None:
+        rep.inconc("range::simple not found in the extracted grammar")
+        return
+    if gram.strip(simple).kind != "alt":
+        # a dispatch in front of the alternatives (first-character match, several paths): the delimiter discipline is
+        # decided on the automata; which alternative wins where (hyphen before partial, garbage last) is the business of
+        # L-COMPARATORS, which is semantic as well
+        delimiters_semantic(rep, prog, g, rule, real_part(g))
+        rep.ok(rule, 2)
+        rep.notes.append("%s: simple() is not a plain `alt` (%s); alternatives and their order are decided by L-COMPARATORS"
+                         % (rule, gram.strip(simple).kind))
+        _separators(rep, prog, g, rule)
         return
     alts = gram.strip(simple).args
     names = []
@@ -413,6 +450,10 @@ def delimiters(rep, prog, g):
             rep.ok(rule)
         else:
             rep.fail(rule, "range::simple|%s|order" % rule, "hyphen must be tried before partial and garbage last: %s" % names)
+    _separators(rep, prog, g, rule)
+
+
+def _separators(rep, prog, g, rule):
     # separators: comparators are separated by a parser that consumes blanks only, at least one, and accepts every
     # blank (decided on the separator's PEG automaton, not on its spelling)
     rg = gram.strip(g.get("range::range")) if g.get("range::range") else None
@@ -463,4 +504,4 @@ def delimiters(rep, prog, g):
                                              "fails although the text continues with `||`", L.word_str(w, reps)))
     except (Inconclusive, KeyError) as e:
         rep.inconc("%s: logical_or: %s" % (rule, e))
-    rep.analysed_item("range::simple alternatives %s" % names)
+    rep.analysed_item("range::simple: %s" % gram.show_p(g["range::simple"])[:300])
